@@ -405,7 +405,81 @@ def run_l2(case):
     return out
 
 
+# ------------------------------------------------------------------------------------------------
+# L3: several clients at once (each its own proxy and connection) - values must not get mixed up between calls
+# ------------------------------------------------------------------------------------------------
+
+def _l3_values(ser, i):
+    vals = [2**70 + i, -(2**64) - i, [2**80 + i, "x"], {"k": 2**65 + i}, {"a%d" % i: [i, None, 1.5]}, "text-%d-\u00e9" % i, i, [i, [i, [i]]]]
+    if ser != "json":
+        vals += [complex(i, -i), {i, i + 1, 2**66}, (i, (2**70, "t"))]
+    if ser != "marshal":
+        vals += [decimal.Decimal(i) / 8, uuid.UUID(int=i + 1), datetime.date(2000 + i % 50, 1 + i % 12, 1 + i % 28)]
+    return vals
+
+
+def run_l3(case):
+    import sys
+    import threading
+    from vlib import live
+    L = _setup_live(case.get("servertype", "thread"))
+    out = []
+    lock = threading.Lock()
+    old = sys.getswitchinterval()
+    sys.setswitchinterval(1e-6)
+    base = L["counter"][0]
+    L["counter"][0] += 1000000
+
+    def viol(sig, what):
+        with lock:
+            if len(out) < 5:
+                out.append(Violation("C01:%s" % sig, ("concurrent clients: " + what)[:500]))
+
+    def client(t, ser):
+        p = live.proxy(L["served"].uri("echo"), serializer=ser)
+        try:
+            n = 0
+            for rnd in range(case["rounds"]):
+                for v in _l3_values(ser, rnd * 7 + t):
+                    n += 1
+                    token = base + t * 100000 + n
+                    ORIGINALS[token] = v
+                    try:
+                        exp = expected(ser, v)
+                        res = p.echo(token, v, kw=v)
+                        args, kwargs = RECEIVED.pop(token, (None, None))
+                        if args is None or len(args) != 1 or list(kwargs) != ["kw"]:
+                            viol(ser + ":concurrent-delivery", "call %r: server received args=%r kwargs=%r" % (v, args, kwargs))
+                        else:
+                            for label, got in (("positional argument", args[0]), ("keyword argument", kwargs["kw"]), ("result", res)):
+                                if not matches(got, exp):
+                                    viol(ser + ":concurrent-value-mixup", "%s of call %r arrived as %r (expected %r)" % (label, v, got, exp))
+                    except Exception as x:
+                        viol(ser + ":concurrent-call-raises", "call %r raised %r" % (v, x))
+                    finally:
+                        ORIGINALS.pop(token, None)
+                    if out:
+                        return
+        finally:
+            p._pyroRelease()
+    threads = [threading.Thread(target=client, args=(t, ser)) for t, ser in enumerate(case["sers"])]
+    try:
+        for th in threads:
+            th.start()
+        for th in threads:
+            th.join()
+    finally:
+        sys.setswitchinterval(old)
+    return out
+
+
 def run_case(case):
+    if case["layer"] == 3:
+        try:
+            return run_l3(case)
+        finally:
+            if not _live.get("keep"):
+                _teardown_live()
     if case["layer"] == 1:
         return run_l1(case)
     try:
@@ -416,10 +490,14 @@ def run_case(case):
 
 
 def _nontrivial(case):
+    if case["layer"] == 3:
+        return True
     return V.interesting(case["v"])
 
 
 def _labels(case):
+    if case["layer"] == 3:
+        return ["L3-concurrent"]
     v = case["v"]
     l = ["L%d" % case["layer"], "ser:" + case["ser"], "core" if V.is_core(v) else "ext"]
     if case["layer"] == 2 and case.get("compress"):
@@ -434,11 +512,26 @@ def _labels(case):
 def SHARDS(tier):
     sh = [{"layer": 1, "ser": s} for s in SERS] + [{"layer": 1, "ser": s} for s in SERS]
     sh += [{"layer": 2, "ser": s, "servertype": t} for s in SERS for t in ("thread", "multiplex")]
+    sh += [{"layer": 3, "servertype": "thread", "sers": ["msgpack", "msgpack", "msgpack"]}, {"layer": 3, "servertype": "thread", "sers": ["serpent", "json", "marshal", "msgpack"]}]
     return sh
 
 
 def run(ctx):
     sh = ctx.shard
+    if sh.get("layer") == 3:
+        _live["keep"] = True
+        _live["servertype"] = sh["servertype"]
+        try:
+            for rep in range(ctx.n(6, 60)):
+                case = {"layer": 3, "servertype": sh["servertype"], "sers": sh["sers"], "rounds": 12, "rep": rep}
+                viols = run_l3(case)
+                ctx.observe(case, viols, True, ["L3-concurrent", "sers:" + "+".join(sh["sers"])])
+                if viols:
+                    break
+        finally:
+            _live["keep"] = False
+            _teardown_live()
+        return
     if sh.get("layer", 1) == 1:
         ctx.search(l1_case(sh.get("ser")), run_case, ctx.n(700, 12000), nontrivial=_nontrivial, labels=_labels, name="l1" + sh.get("ser", ""))
     else:
